@@ -42,6 +42,9 @@ pub struct Case {
     pub max_steps: usize,
     /// keep calling `next()` after error items (only rows that are still yielded are judged)
     pub continue_after_error: bool,
+    /// corpus runs: this text (a test from tests/data/*.dig) is fed to the parser instead of
+    /// the printed `program`; there is no model, only history-only oracles apply
+    pub source_override: Option<String>,
 }
 
 impl Case {
@@ -49,6 +52,14 @@ impl Case {
         match self.inspect {
             None => false,
             Some((seed, num, den)) => mix(&[seed, step as u64]) % (den.max(1) as u64) < num as u64,
+        }
+    }
+
+    /// the text that is fed to the parser
+    pub fn source_text(&self) -> String {
+        match &self.source_override {
+            Some(s) => s.clone(),
+            None => self.program.to_text(),
         }
     }
 
@@ -61,7 +72,7 @@ impl Case {
         J::obj()
             .set("signals", J::arr(&self.signals, |s| s.to_json()))
             .set("program", self.program.to_json())
-            .set("source", J::s(self.program.to_text()))
+            .set("source", J::s(self.source_text()))
             .set("duts", J::arr(&self.duts, |d| d.to_json()))
             .set(
                 "schedule",
@@ -86,6 +97,13 @@ impl Case {
             )
             .set("max_steps", J::u(self.max_steps))
             .set("continue_after_error", J::Bool(self.continue_after_error))
+            .set(
+                "source_override",
+                match &self.source_override {
+                    Some(s) => J::s(s.clone()),
+                    None => J::Null,
+                },
+            )
     }
 
     pub fn from_json(j: &J) -> Result<Case, String> {
@@ -142,6 +160,10 @@ impl Case {
             continue_after_error: match j.get("continue_after_error") {
                 Some(b) => b.as_bool()?,
                 None => false,
+            },
+            source_override: match j.get("source_override") {
+                Some(J::Str(s)) => Some(s.clone()),
+                _ => None,
             },
         })
     }
